@@ -19,15 +19,18 @@ theorem C09_encode (env : Env) (f0 : Uid → Fields) (res0 : List (Option Nat ×
     c09Encode env o = true := by
   exact backwardCalc_c09Encode env f0 res0 o hf hn h
 
-/-- every dependency between member tasks is respected and the schedule is late-packed -/
+/-- every dependency between member tasks is respected and the schedule is late-packed, when no task that has
+    children carries a dependency link.  Further hypotheses are the structural facts C01 guarantees (parent pointers
+    agree with the children lists, links stored on both ends) and that predecessors / successors outside the WBS are
+    plain leaves (their own dates stand for themselves). -/
 theorem C09_partial (env : Env) (f0 : Uid → Fields) (res0 : List (Option Nat × Cal)) (o : Output)
     (hf : env.flagsOK) (hn : noFixedDates env f0 = true) (hs : noSummaryLinks env = true)
+    (hp : env.parentsOK) (hl : env.linksSym) (ho : outsideLeaves env = true)
+    (hos : ∀ t ∈ memberList env, ∀ s ∈ (env.info t).succs,
+      s ∈ memberList env ∨ (env.info s).children.isEmpty = true)
     (h : backwardCalc env f0 res0 = .ok o) :
-    c09Deps env o = true ∧ c09LatePacked env o = true := by
-  -- FALSE as stated (kernel-checked counterexamples `C09CE.C09_partial_false_asym`, `…_parent` in
-  -- Lemmas/SchedC09.lean); the corrected statement `C09_partial_v2` (extra hypotheses `env.parentsOK`,
-  -- `env.linksSym`, `outsideLeaves env`, outside successors are leaves) is proved there
-  sorry
+    c09Deps env o = true ∧ c09LatePacked env o = true :=
+  C09_partial_v2 env f0 res0 o hf hn hs hp hl ho hos h
 
 theorem C09_full_fails :
     ∃ o, backwardCalc Witness.kfS2C09Env Witness.kfS2C09F0 Witness.kfS2C09Res = .ok o ∧
